@@ -17,6 +17,7 @@
 #include "../model/model.hpp"
 #include "../seams/sim_alloc.hpp"
 #include "../seams/sim_stream.hpp"
+#include <cerrno>
 #include <set>
 #include "common.hpp"
 
@@ -31,6 +32,7 @@ struct DumpSpec {
     int stack = -1;
     uint64_t dseed = 0;
     int getbuf = 64, putbuf = 64, exc = 0, pre = 0, post = 0, seek = 0;
+    int en = 0; // errno as the loading thread finds it (left over from an earlier, unrelated call)
     std::vector<size_t> ext;
 };
 
@@ -51,7 +53,7 @@ std::string case_text(const DumpSpec &d, const Case &c)
     std::ostringstream o;
     o << "# covfie-sim replay v1\nworld iofault\n";
     o << "dump stack=" << g_stacks[d.stack].id << " dseed=" << d.dseed << " getbuf=" << d.getbuf << " putbuf=" << d.putbuf << " exc=" << d.exc
-      << " pre=" << d.pre << " post=" << d.post << " seek=" << d.seek << " ext=";
+      << " pre=" << d.pre << " post=" << d.post << " seek=" << d.seek << " en=" << d.en << " ext=";
     for (size_t i = 0; i < d.ext.size(); ++i)
         o << (i ? "x" : "") << d.ext[i];
     if (d.ext.empty())
@@ -163,6 +165,7 @@ struct Outcome {
     size_t refills = 0;
 };
 
+int g_errno_before_load = 0; // ambient state of the loading thread (set per dump)
 Outcome try_load(int reader, const Bytes &data, size_t start, size_t limit, int getbuf, int exc, long throw_refill, size_t budget, bool seekable = false, unsigned prestate = 0)
 {
     Outcome out;
@@ -185,6 +188,7 @@ Outcome try_load(int reader, const Bytes &data, size_t start, size_t limit, int 
     }
     alloc::begin_op(0);
     bool constructed = false;
+    errno = g_errno_before_load;
     try {
         o.load(mem, is);
         constructed = true;
@@ -572,6 +576,7 @@ DumpSpec gen_dump(uint64_t seed, int stack, int di, bool small, bool big = false
         d.post = r.chance(0.5) ? (int)r.range(1, 24) : 0;
         d.seek = r.chance(0.5) ? 1 : 0;
         d.ext = gen_big_ext(r, g_stacks[stack]);
+        d.en = r.chance(0.4) ? EINTR : 0;
         return d;
     }
     d.getbuf = chunks[r.below(9)];
@@ -581,6 +586,10 @@ DumpSpec gen_dump(uint64_t seed, int stack, int di, bool small, bool big = false
     d.post = r.chance(0.5) ? (int)r.range(1, 24) : 0;
     d.seek = r.chance(0.5) ? 1 : 0;
     d.ext = gen_ext(r, g_stacks[stack], small);
+    {
+        static const int ens[] = {EINTR, EAGAIN, ERANGE, ENOMEM, EIO};
+        d.en = r.chance(0.4) ? ens[r.below(5)] : 0;
+    }
     return d;
 }
 
@@ -593,6 +602,7 @@ void run_unit(Ctx &cx, uint64_t unit_index, const DumpSpec &d, int kind, bool th
     cx.prog->op_kind = (uint64_t)kind;
     cx.prog->op = 0;
     Prepared p;
+    g_errno_before_load = d.en;
     if (!make_dump(d, p, -1, nullptr)) {
         std::printf("UNIT %llu stack=%s kind=%s cases=0 SKIP %s\n", (unsigned long long)unit_index, sd.id, KIND_NAMES[kind], p.error.c_str());
         cx.cnt.inc("units_skipped");
@@ -697,6 +707,8 @@ int main(int argc, char **argv)
                         d.post = std::atoi(v.c_str());
                     else if (k == "seek")
                         d.seek = std::atoi(v.c_str());
+                    else if (k == "en")
+                        d.en = std::atoi(v.c_str());
                     else if (k == "ext" && v != "-") {
                         std::stringstream ss(v);
                         std::string e;
@@ -723,6 +735,7 @@ int main(int argc, char **argv)
         }
         cx.prog->stack = (uint64_t)d.stack + 1;
         cx.prog->op_kind = (uint64_t)c.kind;
+        g_errno_before_load = d.en;
         Prepared p;
         if (!make_dump(d, p, -1, nullptr)) {
             std::printf("REPLAY VIOL key=harness:%s:dump op=0 :: %s\n", g_stacks[d.stack].id, p.error.c_str());
